@@ -259,7 +259,8 @@ class QuadricTensor(ProjectiveTensor, ABC):
                 else:
                     i = nonzero.argmax(-1)
                     m = PlaneCollection(arr[(*tuple(np.indices(i.shape)), i)], copy=False).basis_matrix
-                line = other._matrix_transform(m)
+                # coordinates with respect to the orthonormal basis of the plane (hermitian products for complex lines)
+                line = other._matrix_transform(np.conjugate(m))
                 projected_quadric = QuadricCollection.from_array(matmul(matmul(m, self.array), m, transpose_b=True))
                 return [
                     PointCollection.from_array(np.squeeze(matmul(np.expand_dims(point.array, -2), m), -2))
